@@ -128,8 +128,16 @@ type Transaction struct {
 	 * by a new one with the same name while we hold the old one. */
 	writtenCaches map[*sharedCacheElem]string
 	mu            sync.Mutex
-	manager       *Manager
-	failed        atomic.Bool
+	/* Serialises the goroutines of this transaction while one of them waits
+	 * for the write lock of a shared cache. It is not the same mutex as mu:
+	 * mu is also taken under the manager lock (when a new cache is recorded),
+	 * and a goroutine that waits for a cache lock while holding mu blocks that
+	 * path, which in turn blocks everybody who needs the manager lock - among
+	 * them the reader that holds the cache we are waiting for, when it checks
+	 * the size limit on its way out. */
+	acquireMu sync.Mutex
+	manager   *Manager
+	failed    atomic.Bool
 	// The manager generation when the transaction was created. It must be
 	// created before the storage transaction it accompanies is opened.
 	startGeneration uint64
@@ -262,21 +270,26 @@ func (t *Transaction) With(name string, readOnly bool, createFn func() (Cachable
 			 * like insert, update or delete, then we'll have to wait anyway because
 			 * of bbolt (recall bbolt only allows one read-write transaction at a
 			 * time) which is absolutely fine for a search heavy workload. */
-			t.mu.Lock()
+			t.acquireMu.Lock()
 			/* Have we locked this cache before? Within a transaction we hold
 			 * onto writes until we know the transaction is committed. This is
 			 * to ensure other readers or writers do not see partial results.
 			 * Within a transaction a writer can write to multiple caches, e.g.
 			 * multiple indices. */
-			if _, ok := t.writtenCaches[existingCache]; !ok {
+			t.mu.Lock()
+			_, ok := t.writtenCaches[existingCache]
+			t.mu.Unlock()
+			if !ok {
 				/****************************
 				 * Please do not forget to unlock after the transaction is
 				 * complete.
 				 ***************************/
 				existingCache.mu.Lock()
+				t.mu.Lock()
 				t.writtenCaches[existingCache] = name
+				t.mu.Unlock()
 			}
-			t.mu.Unlock()
+			t.acquireMu.Unlock()
 		}
 		if cacheToUse.scrapped.Load() {
 			log.Debug().Str("name", name).Bool("readOnly", readOnly).Msg("Cache is scrapped, using temporary new cache")
